@@ -113,7 +113,7 @@ def chunked_bound(marks, maxline, total_payload, K, wire_len, endless_chunk, fin
 
 def _gen_case(rng, tier):
     B = rng.choice([1, 2, 5, 16, 64, 200, 1024, 4096])
-    M = rng.choice([None, None, max(1, B - 1), B, B + 1, 2 * B, 3 * B + 7, 10, 100, 1000, 4096])
+    M = rng.choice([None, None, max(1, B - 1), B, B + 1, 2 * B, 3 * B + 7, 10, 100, 1000, 4096, 0])
     ptype = rng.choice(PTYPES)
     if ptype in ('mp_text', 'mp_file') and rng.random() < 0.7:
         B = rng.choice([128, 200, 512, 1024])
@@ -135,6 +135,12 @@ def _gen_case(rng, tier):
     if len(body) > 5000 and case['sched']['mode'] != 'full':
         case['sched'] = {'mode': 'regular', 'k': rng.choice([B, B + 1, 1000, 4096])}
     case['temp'] = 'mem' if rng.random() < 0.4 else 'real'
+    if case['framing'] == 'chunked' and ptype == 'raw' and rng.random() < 0.25:
+        # both Transfer-Encoding: chunked and a (small) Content-Length: the transfer coding wins (RFC 7230 3.3.3),
+        # the limits apply to what is actually transferred
+        case['cl_too'] = rng.choice([0, 1, max(0, len(body) // 2), len(body)])
+    if M is not None and rng.random() < 0.3:
+        case['retry'] = True      # the handler touches the body again after the refusal
     return case
 
 
@@ -177,8 +183,14 @@ def _run_case(case):
         max_calls = bound + 64
     touch = {'raw': ('body',), 'urlenc': ('body', 'forms'), 'json': ('body', 'json'),
              'mp_text': ('body', 'forms'), 'mp_file': ('body', 'files')}[ptype]
+    if chunked and case.get('cl_too') is not None:
+        cl = case['cl_too']
+        res['probes']['chunked_with_content_length'] += 1
     o = body_request(wire, case['sched'], B=B, M=M, cl=cl, chunked=chunked, ctype=ctype, tempmode=case['temp'],
-                     touch=touch, endless=endless_pat, max_calls=max_calls)
+                     touch=touch, endless=endless_pat, max_calls=max_calls, retry=bool(case.get('retry')))
+    if 'retry_body' in o.seen and (endless or (M is not None and len(body) > M)):
+        violation(res, 'C13:refused-body-readable-on-retry',
+                  f'a body refused for its size was handed out ({len(o.seen["retry_body"])} bytes) on the second access')
     code = o.resp.code
     st = o.stream
     log('status', o.resp.status, 'consumed', st.consumed, 'calls', st.n_calls)
